@@ -199,3 +199,27 @@ Section SubgridSpec.
     = app_row R radd rmul r (radd o1 (rmul s1 v1)) (radd o2 (rmul s2 v2)) (radd o3 (rmul s3 v3)).
   Proof. intros [[[a b] c] t] s1 s2 s3 o1 o2 o3 v1 v2 v3. cbn [sg_row app_row]. ring. Qed.
 End SubgridSpec.
+
+(* ------------------------------------------------------------------ optimisation bookkeeping *)
+From NV.Generated Require Import OptimizeBook.
+From NV.C09 Require Import ModelOpt.
+
+Lemma optimize_not_worse : forall (P : Type) (sim : P -> Q) (run : (P -> Q) -> P -> list P * P),
+  (forall f x0, (f (snd (run f x0)) <= f x0)%Q) ->
+  forall x0, (sim x0 <= sim (optimize_result P sim run gen_optimize_binding x0))%Q.
+Proof.
+  intros P sim run contract x0. unfold optimize_result, gen_optimize_binding.
+  set (c := opt_cost P sim). specialize (contract c x0).
+  assert (Hc : forall p, c p = (- sim p)%Q) by reflexivity.
+  rewrite !Hc in contract. lra.
+Qed.
+
+(* the contract alone does not make "keep the last evaluated point" correct *)
+Lemma in_place_last_can_be_worse :
+  exists (sim : Z -> Q) (run : (Z -> Q) -> Z -> list Z * Z),
+    (forall f x0, (f (snd (run f x0)) <= f x0)%Q) /\
+    (sim (optimize_result Z sim run InPlaceLast 0%Z) < sim 0%Z)%Q.
+Proof.
+  exists (fun p => (- inject_Z (p * p))%Q), (fun f x0 => ([x0; x0 + 1], x0)).
+  split; [intros f x0; cbn [snd]; lra|]. vm_compute. reflexivity.
+Qed.
